@@ -59,6 +59,7 @@ class Engine(object):
     self.concrete_vals = None
     self.concrete_log = None
     self.shard = None
+    self.cleanup = False
 
   # ---------------------------------------------------------------- per path
   def begin(self, prefix):
@@ -118,6 +119,9 @@ class Engine(object):
     """cond: z3 BoolRef.  Returns a Python bool; forks when both sides are feasible."""
     if z3.is_true(cond): return True
     if z3.is_false(cond): return False
+    if self.cleanup:
+      # left-over greenlets of the previous path being killed: their branches are not part of any path
+      return False
     cond = z3.simplify(cond)
     if z3.is_true(cond): return True
     if z3.is_false(cond): return False
